@@ -1396,9 +1396,14 @@ pub fn build_morx_hazard(num_glyphs: u16, glyphs: &[u16], hazard: u32) -> Option
             Some(wrap_single_subtable(2, body))
         }
         4 => {
-            // classes: a = 4, b = 5. Both start states: a -> entry 1, b -> entry 2.
-            // entry 1: substitute current glyph through table 0 (a -> b), don't advance, state 0
-            // entry 2: substitute current glyph through table 1 (b -> a), don't advance, state 0
+            // classes: a and c = 4, b = 5. Both start states: class 4 -> entry 1, class 5 -> entry 2.
+            // entry 1: substitute the current glyph through table 0 (a -> b), don't advance
+            // entry 2: substitute the current glyph through table 1 (a -> c, b -> c), don't advance
+            // Whether the implementation looks the current glyph up by its original id (a) or by
+            // its substituted id, the glyph keeps alternating between b and c and never advances.
+            let c = if glyphs.len() > 2 { glyphs[2] } else { lig };
+            let class_bytes =
+                emit_lookup(6, &[(a, 4), (b, 5), (c, 4)], Fill::Const(1), num_glyphs, LkOpts { term: 0, unit1: false }).0;
             let mut entries = Vec::new();
             for e in [(0u16, 0u16, 0xFFFFu16, 0xFFFFu16), (0, CTX_DONT_ADVANCE, 0xFFFF, 0), (0, CTX_DONT_ADVANCE, 0xFFFF, 1)] {
                 be16(&mut entries, e.0);
@@ -1407,8 +1412,8 @@ pub fn build_morx_hazard(num_glyphs: u16, glyphs: &[u16], hazard: u32) -> Option
                 be16(&mut entries, e.3);
             }
             let rows = vec![vec![0, 0, 0, 0, 1, 2], vec![0, 0, 0, 0, 1, 2]];
-            let mut t0 = emit_lookup(6, &[(a, b)], Fill::Identity, num_glyphs, LkOpts { term: 0, unit1: false }).0;
-            let mut t1 = emit_lookup(6, &[(b, a)], Fill::Identity, num_glyphs, LkOpts { term: 0, unit1: false }).0;
+            let mut t0 = emit_lookup(6, &[(a, b), (c, b)], Fill::Identity, num_glyphs, LkOpts { term: 0, unit1: false }).0;
+            let mut t1 = emit_lookup(6, &[(a, c), (b, c)], Fill::Identity, num_glyphs, LkOpts { term: 0, unit1: false }).0;
             if t0.len() % 2 != 0 {
                 t0.push(0);
             }
